@@ -64,9 +64,10 @@ func NewIndexKVStore(family kv.Family, cacheSize int, cacheTTL time.Duration) In
 		family:   family,
 		snapshot: family.GetSnapshot(),
 		mutable:  imap.NewIntMap[map[string]uint32](),
-		bucketCache: expirable.NewLRU(cacheSize, func(_ uint32, value *model.TrieBucket) {
-			value.Release()
-		}, cacheTTL),
+		// NOTE: a cached bucket is shared with the readers which got it from the cache, they may still search it when
+		// it is evicted(capacity/ttl/purge). So it cannot be released here, because release puts its tries back into
+		// the pool and the next bucket which is loaded overwrites them.
+		bucketCache: expirable.NewLRU[uint32, *model.TrieBucket](cacheSize, nil, cacheTTL),
 	}
 }
 
